@@ -346,6 +346,23 @@ def witness(ctx, k):
             return False
         except Exception:
             return True
+    if kind == "tns-without-prefix":
+        w = (b'<?xml version="1.0"?><wsdl:definitions targetNamespace="urn:w" '
+             b'xmlns:wsdl="http://schemas.xmlsoap.org/wsdl/" xmlns:w="urn:w" '
+             b'xmlns:soap="http://schemas.xmlsoap.org/wsdl/soap/"><wsdl:types><xsd:schema '
+             b'xmlns:xsd="http://www.w3.org/2001/XMLSchema" targetNamespace="urn:t" elementFormDefault="unqualified">'
+             b'<xsd:element name="Req"><xsd:complexType><xsd:sequence><xsd:element name="item" type="xsd:string"/>'
+             b'</xsd:sequence></xsd:complexType></xsd:element></xsd:schema></wsdl:types><wsdl:message name="fIn">'
+             b'<wsdl:part name="parameters" element="q:Req" xmlns:q="urn:t"/></wsdl:message><wsdl:portType name="PT">'
+             b'<wsdl:operation name="f"><wsdl:input message="w:fIn"/></wsdl:operation></wsdl:portType>'
+             b'<wsdl:binding name="B" type="w:PT"><soap:binding style="document" '
+             b'transport="http://schemas.xmlsoap.org/soap/http"/><wsdl:operation name="f"><soap:operation '
+             b'soapAction="f"/><wsdl:input><soap:body use="literal"/></wsdl:input></wsdl:operation></wsdl:binding>'
+             b'<wsdl:service name="S"><wsdl:port name="P" binding="w:B"><soap:address location="http://x.invalid/"/>'
+             b'</wsdl:port></wsdl:service></wsdl:definitions>')
+        c = wsdlkit.client(w, nosend=True)
+        root, kids = K.body_children(wsdlkit.envelope_bytes(c.service.f("x")))
+        return list(kids[0]["children"][0]["name"]) != [None, "item"]
     if kind == "block-form":
         extra = ('<xsd:schema targetNamespace="%s" elementFormDefault="qualified"><xsd:complexType name="T2">'
                  '<xsd:sequence><xsd:element name="m" type="xsd:int"/></xsd:sequence></xsd:complexType>'
